@@ -104,6 +104,41 @@ def named_descriptors(msg, td):
     return list(found.values())
 
 
+def owners_against_links(td):
+    """The `-> N` column of the flat text (bitmap_links) names the owner of every bitmap-linked value; in the
+    hierarchical view (what the nested formats print) that value must hang on exactly that owner.
+    -> None or a description of the first attribute on a wrong owner."""
+    from pybufrkit import templatedata as T
+    for k in range(td.n_subsets):
+        links = td.bitmap_links_all_subsets[k]
+
+        def visit(nodes, seen):
+            for n in nodes:
+                if isinstance(n, T.DelayedReplicationNode):
+                    r = visit([n.factor], seen)
+                    if r:
+                        return r
+                if hasattr(n, 'members'):
+                    r = visit(n.members, seen)
+                    if r:
+                        return r
+                if isinstance(n, T.NoValueDataNode):
+                    continue
+                for a in getattr(n, 'attributes', []):
+                    if id(a) in seen:
+                        continue
+                    seen.add(id(a))
+                    if a.index in links and not isinstance(a, T.AssociatedFieldNode) and links[a.index] != n.index:
+                        return 'subset %d: value %d hangs on entry %d, the flat text links it to entry %d' % (
+                            k + 1, a.index + 1, n.index + 1, links[a.index] + 1)
+            return None
+
+        r = visit(td.decoded_nodes_all_subsets[k], set())
+        if r:
+            return r
+    return None
+
+
 def td_part(text):
     """lines as the converters see them (`splitlines()[1:]`), index of the first subset header, index of the section
     header that ends the template data"""
@@ -217,6 +252,7 @@ def observe_text(b, fuzz=None, max_values=None):
         except Exception as e:  # noqa
             out['wire'] = core.err_tag(e)
         if out['wire'] == 'ok':
+            out['owner_bad'] = owners_against_links(td)
             stage('nested_text', lambda: NestedTextRenderer().render(msg), U.nested_text_to_flat_json, U.subsets_nested_text_to_flat_json)
     finally:
         for d, n in saved:
@@ -348,6 +384,8 @@ def correspondence(obs, model):
 def oracle(obs):
     """the property on the implementation alone: text -> flat == flat JSON, for the whole message"""
     bad = []
+    if obs.get('owner_bad'):
+        bad.append(('nested_owner', 'the nested view hangs a bitmap-linked value on another owner than the flat text names: ' + obs['owner_bad']))
     for name, st in obs.get('stages', {}).items():
         if st.get('render') != 'ok':
             if name == 'flat_text' or obs.get('wire') == 'ok':
@@ -444,24 +482,74 @@ def run_text(ctx, drv=None, pool=None):
             pool.terminate()
 
 
+BITMAP_POOL = [1001, 1002, 2001, 4001, 4002, 5002, 10004, 11001, 11002, 12001, 12004, 13003]
+
+
+def bitmap_shapes(rng, k):
+    """uncompressed (and compressed) messages whose bitmap selects, subset by subset, DIFFERENT elements (same number
+    of zero bits, so the descriptor lists of the subsets are equal): quality information, substituted / replaced
+    values, first-order and difference statistics -> (ids, forced-per-subset function, tag)"""
+    out = []
+    for _ in range(k):
+        m = rng.randint(2, 6)
+        z = rng.randint(1, m - 1)
+        elems = [rng.choice(BITMAP_POOL) for _ in range(m)]
+        kind = rng.choice(['222', '223', '224', '225', '232'])
+        rep_m, rep_z = 101000 + m, 101000 + z
+        if kind == '222':
+            ids = elems + [222000, rep_m, 31031, rep_z, 33007]
+        elif kind == '223':
+            ids = elems + [223000, rep_m, 31031, rep_z, 223255]
+        elif kind == '232':
+            ids = elems + [232000, rep_m, 31031, rep_z, 232255]
+        elif kind == '224':
+            ids = elems + [224000, rep_m, 31031, 8023, rep_z, 224255]
+        else:
+            ids = elems + [225000, rep_m, 31031, 8024, rep_z, 225255]
+        out.append((ids, m, z, 'bitmap-per-subset'))
+    return out
+
+
 def build_shapes(ctx, drv, treq):
+    """the shapes the property names (harness/props/c09.py SHAPES + strings), compressed and not, as message bytes;
+    all value lists come from ONE driver batch"""
     from harness.props import c09 as base
     rng = ctx.rng('text-shapes')
     shapes = list(base.SHAPES) + base.string_shapes(rng, 16 if ctx.tier == 'quick' else 120)
-    items = []
+    plan = []
+    reqs = [treq]
     for ids, forced, tag in shapes:
         for comp in (False, True):
             n = rng.randint(1, 3)
-            b, _ = base.build_message(drv, treq, ids, forced, n, comp, rng)
-            if b is None:
-                continue
-            items.append((ids, b, tag))
+            force = [[k, list(v) * (1 if comp else n)] for k, v in sorted(forced.items())]
+            reqs.append({'op': 'gen-data', 'ids': ids, 'n': n, 'shared': comp, 'rnd': C.rnd_bits(rng, 3000), 'force': force})
+            plan.append((ids, tag, comp))
+    for ids, m, z, tag in bitmap_shapes(rng, 24 if ctx.tier == 'quick' else 300):
+        n = rng.randint(2, 3)
+        comp = rng.random() < 0.2
+        bits = []
+        for _ in range(1 if comp else n):
+            row = [0] * z + [1] * (m - z)
+            rng.shuffle(row)
+            bits += row
+        reqs.append({'op': 'gen-data', 'ids': ids, 'n': n, 'shared': comp, 'rnd': C.rnd_bits(rng, 3000), 'force': [[31031, bits]]})
+        plan.append((ids, tag, comp))
+    items = []
+    for (ids, tag, comp), r in zip(plan, drv.batch(reqs)[1:]):
+        if 'err' in r:
+            ctx.count('text:shape-not-built')
+            continue
+        st, b, _ = C.impl_encode(C.make_message_json(ids, P.py_inputs(r['vals']), comp, edition=4))
+        if st != 'ok':
+            ctx.count('text:shape-not-built')
+            continue
+        items.append((ids, b, tag))
     return items
 
 
 def run_text_generated(ctx, drv, treq, pool):
     rng = ctx.rng('text-main')
-    count = 240 if ctx.tier == 'quick' else 6000
+    count = 360 if ctx.tier == 'quick' else 6000
     items = build_shapes(ctx, drv, treq)
     done = 0
     while done < count:
@@ -541,9 +629,9 @@ def run_text_corpus(ctx, pool):
     if quick:
         r = ctx.rng('text-corpus')
         r.shuffle(bench)
-        bench = sorted(bench[:25])
+        bench = sorted(bench[:30])
     files += bench
-    results = pool.map(corpus_compare, [(p, 12000 if quick else None) for p in files], chunksize=1)
+    results = pool.map(corpus_compare, [(p, 15000 if quick else None) for p in files], chunksize=1)
     for path, (obs, model, ids) in zip(files, results):
         name = os.path.basename(path)
         if 'harness_error' in obs:
